@@ -70,7 +70,7 @@ ASSUMPTIONS = ['textbook definitions as written in vp/refmodels/poly_exact.py (S
                '"sorted polynomial orders"), two-index term lists in any order with repeats; coordinates are floating ndarrays, r and t '
                'of one common shape; other requests reaching a contract are excluded and counted',
                'orders are python ints or numpy int32 / int64 / intp; orders or parameters given as 8/16-bit numpy integers are out of domain (excluded and '
-               'counted); single-precision class (float32 coordinate or result, or config.precision = 32): tolerance 1e-3 of scale, orders <= 12',
+               'counted); single-precision class (float32 coordinate or result, or config.precision = 32): tolerance 2e-3 of scale, orders <= 12',
                'emptying prysm\'s memo tables (functools cache_clear, where a helper offers it) never changes what a correct library returns; it is used to '
                'start histories from a known state and to label a failure as history-dependent',
                'a caller may overwrite an array a routine returned, unless that array shares memory with the coordinates it passed (counted, not judged)',
@@ -90,7 +90,7 @@ WORST = {}          # monitor -> worst err/tol seen (reported as a note: distanc
 QBFS_EXACT_MAX = 100
 
 RT64 = 1e-9
-RT32 = 1e-3     # float32 inputs: observed round-off <= 6e-7 of scale at n <= 12
+RT32 = 2e-3     # single-precision class (float32 data or config.precision = 32), n <= 12: observed round-off <= 1.6e-6 of scale
 
 
 def _track(name, err, tol):
@@ -151,23 +151,17 @@ def narrow(*vals):
     return False
 
 
-def mechanism(recheck, coords, retyped=None):
+def mechanism(recheck, coords, retyped=None):      # retyped: unused (8/16-bit integer orders are excluded before a verdict)
     """Mechanism class of a value failure, found by re-running the ORIGINAL routine quietly (post-conditions run inside
     contracts.quiet(): not monitored, not counted).  recheck(transform) -> True when the routine is right for the coordinates
     transformed by `transform` (None: the very same argument objects).
 
+      not-repeatable       right when the very same call is simply made again (e.g. an inner contract has already emptied the tables)
       memory-layout        right for C-contiguous private copies of the coordinates (some coordinate is not C-contiguous)
-      not-repeatable       right when the very same call is simply made again
       history-dependent[:<history class>]  right once the memoised recurrence coefficients have been emptied: state left by an
                            earlier call (the history class is the one the workload declared, if any)
-      orders-as-narrow-numpy-int  (only when `retyped` is given: an order argument is an 8/16-bit numpy integer) right, after the memo
-                           tables have been emptied, for the same orders as python ints
       ''                   wrong regardless (the defect does not depend on layout or history)"""
     try:
-        if retyped is not None:
-            clear_caches()
-            if retyped():
-                return NARROW
         if recheck(None):
             return 'not-repeatable'
         if any(not is_c_contig(c) for c in coords) and recheck(contig):
